@@ -722,6 +722,13 @@ fn infer_generic_member(
             && type_decl.is_alias()
             && let Some(origin_type) = type_decl.get_alias_origin(db, Some(&substitutor))
         {
+            // A recursive alias applied to arguments (`---@alias X X | X<integer>`) expands to a
+            // type that contains the same application again; the type-id guard cannot reject it
+            // because `X<X<A>>` is a legitimate nesting, so bound the nesting of the lookup.
+            const MAX_ALIAS_NESTING: usize = 32;
+            if infer_guard.level() >= MAX_ALIAS_NESTING {
+                return Err(InferFailReason::RecursiveInfer);
+            }
             return infer_member_by_lookup(db, cache, &origin_type, lookup, &infer_guard.fork());
         }
 
